@@ -249,7 +249,7 @@ def run_shard(spec, acc):
         check_case(spec["witness"]["seed"], acc, unsupported=bool(spec["witness"].get("unsupported")))
         return
     tier, k, n = spec["tier"], spec["shard"], spec["nshards"]
-    total = 2400 if tier == "quick" else 90000
+    total = 4800 if tier == "quick" else 90000
     rng = random.Random("C19/%s/%s" % (spec["seed"], k))
     for j in range(total // n):
         s = rng.randrange(1 << 48)
